@@ -29,6 +29,10 @@ RULE = ("typed expression trees to depth 5 over all 13 operators, all 34 functio
         "deleted/inserted); term variables that clash with x or an engine variable; random token soups.  Non-trivial: "
         "the formula contains at least two operators/functions and the model produced a tree; distinct = distinct "
         "(text, values)")
+RULE += (" Family `literals` (drawn last): clusters of decimal literals that agree in their first 3..11 decimals (with duplicates and "
+         "re-spellings) in scaled differences, linear combinations, ratios and random trees with a repeated sub-expression (copied as it "
+         "is or with neighbouring literals); value against NumPy on the tree and against the exact model; rows whose value moves when "
+         "every literal moves to a neighbouring double are skipped and counted.")
 ASSUMPTIONS = ["float evaluation compared with the exact value within 1e-9 abs+rel; points where a discontinuous element "
                "(floor ceil round % fmod relations and/or/! domain edges, division by ~0) receives an inexactly computed "
                "argument within 1e-7 of its discontinuity, overflowing intermediates (>1e150) and numerically unstable "
@@ -516,6 +520,8 @@ def oracle(case):
         if not values_close(r["value"][i], v):
             if math.isinf(r["value"][i]) or math.isinf(v) or unstable(case, i):
                 continue
+            if case.get("family") == "literals" and literal_sensitive(tree, env):
+                continue
             return False, (f"'{case['text']}' at row {i} {env}: implementation {r['value'][i]!r}, documented value {v!r}")
     return True, "ok"
 
@@ -608,6 +614,134 @@ def make_wf(rng):
     return {"kind": "wf", "style": style, "tree": tree, "text": text, "evars": evars, "fvars": fvars, "outs": outs, "x": x}
 
 
+# "numeric literals" of the quantifier are decimal numerals of any length: a formula may hold several literals that differ only
+# far behind the point (coefficients such as 1.0004 and 1.0001, break points 0.3331 and 0.3334), the same literal twice, the same
+# number written in two ways, and sub-expressions that are equal or equal up to such a literal.  Every literal keeps its own
+# value whatever the others are ("evaluated as ordinary mathematics"); texts derived from the tree (postfix, infix) print
+# constants rounded to 3 decimals, so these formulas are the ones on which any step that goes through such a text loses
+# information.
+LITERAL_BASES = ["0.333", "1.000", "0.125", "2.500", "0.999", "1.250", "0.500", "3.141", "0.000", "1.999"]
+
+
+def literal_cluster(rng):
+    """literals that agree with one another in their first 3 .. 11 decimals, with duplicates and re-spellings"""
+    base = rng.choice(LITERAL_BASES)
+    j = rng.randrange(4, 13)                      # the first decimal in which they differ
+    lits = []
+    while len(lits) < rng.choice([2, 2, 3, 4]):
+        s = base + "0" * (j - 4) + str(rng.randrange(1, 10)) + (str(rng.randrange(1, 10)) if rng.random() < 0.3 else "")
+        if s not in lits:
+            lits.append(s)
+    if rng.random() < 0.3 and base != "0.000":
+        lits.append(base)                          # the 3-decimal numeral itself
+    if rng.random() < 0.4:
+        lits.append(rng.choice(lits))              # the same literal once more
+    if rng.random() < 0.3:
+        lits.append(rng.choice(lits) + "0")        # the same number spelled with a trailing zero
+    rng.shuffle(lits)
+    return lits, j
+
+
+def subtrees(t, path=()):
+    yield path, t
+    if t[0] != "leaf":
+        for i, c in enumerate(t[1:], 1):
+            yield from subtrees(c, path + (i,))
+
+
+def replaced(t, path, new):
+    if not path:
+        return new
+    t = list(t)
+    t[path[0]] = replaced(t[path[0]], path[1:], new)
+    return t
+
+
+def make_literals(rng):
+    """a well-formed formula (kind `wf`, family `literals`) over a cluster of close literals: scaled differences, linear
+    combinations, ratios, and random trees whose literal leaves are taken from the cluster and in which a sub-expression is
+    repeated - as it is, or with its literals exchanged for their neighbours"""
+    lits, j = literal_cluster(rng)
+    k = rng.choice([1, 2, 2, 3])
+    names = rng.sample(ENGINE_NAMES + OUT_NAMES + TERM_NAMES, k) + ["x"]
+
+    def lit(i):
+        return ["leaf", lits[i % len(lits)]]
+
+    def var():
+        return ["leaf", rng.choice(names)]
+    r = rng.random()
+    if r < 0.2:
+        # the difference of two literals, scaled so that a difference in the 12th decimal is far above the tolerance while
+        # the rounding of the two literals (below 4.5e-16 each) stays far below it
+        tree = ["*", ["-", lit(0), lit(1)], ["leaf", rng.choice(["1000", "10000", "1e4"])]]
+        if rng.random() < 0.5:
+            tree = ["+", tree, var()]
+    elif r < 0.4:
+        tree = [rng.choice(["-", "+"]), ["*", lit(0), var()], ["*", lit(1), var()]]
+        if rng.random() < 0.5:
+            tree = ["+", tree, ["*", var(), lit(2)]]
+    elif r < 0.5:
+        tree = ["/", ["-", var(), lit(0)], ["-", lit(1), lit(0)]]
+    elif r < 0.6:
+        tree = ["+", ["*", lit(0), ["^", var(), ["leaf", "2"]]], ["*", lit(1), var()]]
+    else:
+        tree = gen_num(rng, rng.choice([2, 3, 3, 4]), names)
+        i = 0
+        for path, sub in list(subtrees(tree)):
+            if sub[0] == "leaf" and is_number(sub[1]) and rng.random() < 0.8:
+                tree = replaced(tree, path, lit(rng.randrange(len(lits))))
+                i += 1
+        if i < 2:
+            tree = [rng.choice(["+", "-", "*"]), tree, ["*", lit(0), ["-", var(), lit(1)]]]
+    if rng.random() < 0.5:
+        # a repeated sub-expression: a copy of a sub-tree (literals kept, or exchanged for other members of the cluster)
+        # takes the place of another sub-tree or is combined with the whole
+        subs = [(p_, t_) for p_, t_ in subtrees(tree) if t_[0] != "leaf" and size_of(t_) <= 4]
+        if subs:
+            _, s0 = rng.choice(subs)
+            copy_ = json.loads(json.dumps(s0))
+            if rng.random() < 0.6:
+                for path, sub in list(subtrees(copy_)):
+                    if sub[0] == "leaf" and sub[1] in lits:
+                        copy_ = replaced(copy_, path, lit(rng.randrange(len(lits))))
+            spots = [p_ for p_, t_ in subtrees(tree) if p_ and t_ is not s0]
+            if spots and rng.random() < 0.5:
+                tree = replaced(tree, rng.choice(spots), copy_)
+            else:
+                tree = [rng.choice(["-", "/", "+", "*"]), tree, copy_]
+    used = sorted({t for t in leaves_of(tree) if not is_number(t)})
+    arrays = rng.random() < 0.4
+    evars, fvars, outs, x = gen_env(rng, used, arrays)
+    style = rng.choice(["min", "min", "rand", "full"])
+    toks = writing(tree, 0, 0) if style == "min" else writing(tree, 0, 0, rng, 0.2) if style == "rand" else writing(tree, 0, 0, full=True)
+    text = join_tokens(toks, rng if rng.random() < 0.7 else None)
+    return {"kind": "wf", "family": "literals", "first_differing_decimal": j, "style": style, "tree": tree, "text": text,
+            "evars": evars, "fvars": fvars, "outs": outs, "x": x}
+
+
+def literal_sensitive(tree, env):
+    """family `literals` only: does moving every literal to a neighbouring double move the (NumPy) value of the tree by
+    more than 1e-10?  Then the float result says nothing about the formula (cancellation of the literals' own rounding)"""
+    def moved(t, up, k=[0]):
+        if t[0] == "leaf":
+            if is_number(t[1]):
+                k[0] += 1
+                d = math.inf if (up if up in (True, False) else (k[0] % 2 == up[0])) else -math.inf
+                return ["leaf", repr(float(np.nextafter(float(t[1].replace("_", "")), d)))]
+            return t
+        return [t[0]] + [moved(c, up, k) for c in t[1:]]
+    try:
+        base = float(doc_eval(tree, env, Flags())[0])
+        for up in (True, False, (0,), (1,)):
+            v = float(doc_eval(moved(tree, up, [0]), env, Flags())[0])
+            if C.cls_of(v) != C.cls_of(base) or (C.cls_of(v) == "fin" and abs(v - base) > 1e-10 + 1e-10 * abs(base)):
+                return True
+    except Exception:  # noqa: BLE001
+        return True
+    return False
+
+
 def make_illformed(rng):
     base = make_wf(rng)
     toks = writing(base["tree"], 0, 0, rng, 0.15)
@@ -692,6 +826,7 @@ def cases(ctx):
     cs += [make_illformed(rng) for _ in range(nw // 4)]
     cs += [make_clash(rng) for _ in range(nw // 12)]
     cs += [make_soup(rng) for _ in range(nw // 5)]
+    cs += [make_literals(rng) for _ in range(nw // 10)]       # drawn last: the families above are unchanged for a seed
     return cs
 
 
@@ -786,6 +921,9 @@ def correspond(ctx):
                             if (math.isinf(iv) and mv != "unk" and C.cls_of(ex) == "fin") or unstable(case, i):
                                 st.skipped_fragile += 1
                                 continue
+                            if case.get("family") == "literals" and literal_sensitive(mtree, env):
+                                st.skipped_fragile += 1
+                                continue
                             bad = (f"row {i} {env}: implementation {iv!r}, model "
                                    f"{mv if mv == 'unk' else (float(ex) if isinstance(ex, Fr) else ex)!r}, "
                                    f"NumPy on the model's tree {dv!r}")
@@ -801,7 +939,7 @@ def correspond(ctx):
                 mism.append({"case": case, "impl": {k: r[k] for k in ("load", "postfix", "value", "err")},
                              "model": o[:300], "what": bad})
         # property oracle on a sub-stream (all ill-formed / clash cases, a third of the well-formed ones)
-        if bad is None and (kind in ("illformed", "clash") or (kind == "wf" and n_or % 3 == 0)):
+        if bad is None and (kind in ("illformed", "clash") or (kind == "wf" and (n_or % 3 == 0 or case.get("family")))):
             ok, detail = oracle(case)
             st.count("oracle")
             if not ok:
@@ -818,7 +956,8 @@ def correspond(ctx):
 def search(ctx):
     rng = ctx.rng
     for c in corpus() + [make_wf(rng) for _ in range(ctx.scale(3000, 20000))] + \
-            [make_illformed(rng) for _ in range(1000)] + [make_clash(rng) for _ in range(300)]:
+            [make_illformed(rng) for _ in range(1000)] + [make_clash(rng) for _ in range(300)] + \
+            [make_literals(rng) for _ in range(ctx.scale(600, 3000))]:
         ok, d = oracle(c)
         if not ok:
             return [(c, d)]
